@@ -5,10 +5,11 @@
 //!   P1  every value kind × every key class (single-entry stores) and every embedding shape × every
 //!       embedding-slab dimension {4,255,256,257,384}
 //!   P2  all subsets of a 6-entry pool (built directly, and built as "put all, delete the rest")
-//!   P3  all subsets of the four slabs that are not reachable through keys (relations, graph, blobs,
-//!       cache) populated through their own API
+//!   P3  all subsets of the slabs that are not reachable through keys (relations, graph, blobs)
+//!       populated through their own API, with and without keyed entries
 //!   P4  all subsets of a 6-item pool created through the engines, compared by engine-level reads
 //!   P5  two structured large stores (fixed instances)
+//!   P6  every put/overwrite/delete sequence up to a depth over a 10-operation alphabet
 //! Crash half (E2): real save over an existing snapshot with the file I/O logged by envshim → every
 //! process-crash image (every op boundary, every byte cut of every write) → real load of the path →
 //! must equal the old or the new snapshot; then a further save on the crashed directory.
@@ -174,6 +175,8 @@ fn data_of(f: &Fields) -> TensorData {
     d
 }
 
+/// pseudo-kind: the entry of `Spec::puts` is a delete of that key
+const DELETE: &str = "<delete>";
 const KEY_CLASSES: [&str; 10] = ["k", "", "ключ:é 🎉", "emb:e", "node:1", "edge:1", "table:t:1", "_cache:c", "_blob:meta:a", "_meta:table:t"];
 
 // ------------------------------------------------------------------------------------------------
@@ -272,7 +275,11 @@ fn populate_slabs(r: &SlabRouter, slabs: &[String]) {
 fn build(spec: &Spec) -> TensorStore {
     let s = new_store(spec.dim);
     for (k, kind) in &spec.puts {
-        s.put(k.clone(), data_of(&kind_fields(kind, spec.dim))).expect("put");
+        if kind == DELETE {
+            let _ = s.delete(k); // deleting an absent key is a no-op of the history
+        } else {
+            s.put(k.clone(), data_of(&kind_fields(kind, spec.dim))).expect("put");
+        }
     }
     for k in &spec.deletes {
         s.delete(k).expect("delete");
@@ -519,17 +526,28 @@ fn tt_lengths(o: &Obs) -> BTreeSet<usize> {
 /// the formats applicable to a store; tensor-train configurations of the quantising format are used
 /// only when every vector the coder will see has one common length (the configuration carries one
 /// shape), so that a failing save is never provoked by the harness
-fn formats_for(orig: &Obs) -> Vec<Fmt> {
-    let mut f = vec![Fmt::File, Fmt::FilePlain, Fmt::RouterFile, Fmt::RouterBytes, Fmt::Bytes, Fmt::BytesIntoDirty, Fmt::Quant(QCfg::Plain), Fmt::Quant(QCfg::DeltaRle)];
+fn formats_for(orig: &Obs, level: Level) -> Vec<Fmt> {
+    let mut f = match level {
+        // RouterFile is the same code path as File (TensorStore::save_snapshot = router.save_to_file)
+        Level::Lean => vec![Fmt::File, Fmt::FilePlain, Fmt::RouterBytes, Fmt::Bytes, Fmt::Quant(QCfg::Plain), Fmt::Quant(QCfg::DeltaRle)],
+        Level::Full => vec![Fmt::File, Fmt::FilePlain, Fmt::RouterFile, Fmt::RouterBytes, Fmt::Bytes, Fmt::BytesIntoDirty, Fmt::Quant(QCfg::Plain), Fmt::Quant(QCfg::DeltaRle)],
+    };
     let l = tt_lengths(orig);
     if l.len() == 1 {
         let d = *l.iter().next().unwrap();
         if d >= 2 {
             f.push(Fmt::Quant(QCfg::Balanced(d)));
-            f.push(Fmt::Quant(QCfg::HighAccuracy(d)));
+            if level == Level::Full {
+                f.push(Fmt::Quant(QCfg::HighAccuracy(d)));
+            }
         }
     }
     f
+}
+#[derive(Clone, Copy, PartialEq, Debug)]
+enum Level {
+    Lean,
+    Full,
 }
 
 enum Loaded {
@@ -867,6 +885,8 @@ fn compare(exp: &Obs, got: &Obs, m: &mut Mode) -> Vec<Diff> {
 // ------------------------------------------------------------------------------------------------
 #[derive(Default, Clone, Serialize, Deserialize)]
 struct Tally {
+    /// signature → (violating cases, up to 16 distinct case labels)
+    by_sig: BTreeMap<String, (u64, BTreeSet<String>)>,
     saves_that_changed_the_original: u64,
     stores: u64,
     round_trips: u64,
@@ -880,11 +900,30 @@ struct Tally {
 impl Tally {
     fn violation(&mut self, sig: String, msg: String, replay: J) {
         self.violation_total += 1;
+        let label = match replay["spec"]["puts"].as_array() {
+            Some(p) if p.len() == 1 => format!("{} under {:?} (dim {}) via {}", p[0][1].as_str().unwrap_or("?"), p[0][0].as_str().unwrap_or("?"), replay["spec"]["dim"], replay["format"]),
+            Some(p) => format!("{}-entry store, slabs {} via {}", p.len(), replay["spec"]["slabs"], replay["format"]),
+            None => format!("{} via {}", replay["items"], replay["format"]),
+        };
+        let e = self.by_sig.entry(sig.clone()).or_default();
+        e.0 += 1;
+        if e.1.len() < 16 {
+            e.1.insert(label);
+        }
         if self.violations.iter().filter(|v| v.0 == sig).count() < 3 {
             self.violations.push((sig, msg, replay));
         }
     }
     fn merge(&mut self, o: Tally) {
+        for (k, (n, l)) in o.by_sig {
+            let e = self.by_sig.entry(k).or_default();
+            e.0 += n;
+            for x in l {
+                if e.1.len() < 16 {
+                    e.1.insert(x);
+                }
+            }
+        }
         self.stores += o.stores;
         self.saves_that_changed_the_original += o.saves_that_changed_the_original;
         self.round_trips += o.round_trips;
@@ -934,22 +973,33 @@ fn corrupt(o: &mut Obs) {
     }
 }
 
-fn run_spec(spec: &Spec, only: Option<Fmt>, selftest: bool, t: &mut Tally) {
+fn run_spec(spec: &Spec, only: Option<Fmt>, level: Level, selftest: bool, t: &mut Tally) {
     let s = build(spec);
     let orig = observe_store(&s);
+    run_built(spec, &s, &orig, only, level, selftest, t);
+}
+fn run_built(spec: &Spec, s: &TensorStore, orig: &Obs, only: Option<Fmt>, level: Level, selftest: bool, t: &mut Tally) {
     // the reference must itself contain what was put (otherwise nothing is being compared)
-    let expect_keys: BTreeSet<&String> = spec.puts.iter().map(|(k, _)| k).filter(|k| !spec.deletes.contains(k)).collect();
+    let mut expect_keys: BTreeSet<&String> = BTreeSet::new();
+    for (k, kind) in &spec.puts {
+        if kind == DELETE {
+            expect_keys.remove(k);
+        } else {
+            expect_keys.insert(k);
+        }
+    }
+    expect_keys.retain(|k| !spec.deletes.contains(k));
     assert_eq!(orig.keys.len(), expect_keys.len(), "live store does not list the keys that were put: {spec:?}");
     t.stores += 1;
-    t.distinct_stores.insert(obs_digest(&orig));
+    t.distinct_stores.insert(obs_digest(orig));
     let fmts = match only {
         Some(f) => vec![f],
-        None => formats_for(&orig),
+        None => formats_for(orig, level),
     };
     for fmt in fmts {
         t.round_trips += 1;
         let replay = json!({"part": "round-trip", "spec": spec, "format": fmt});
-        let loaded = round_trip(&s, fmt, spec.dim);
+        let loaded = round_trip(s, fmt, spec.dim);
         let fam = fmt.family();
         let got = match loaded {
             Ok(l) => l.observe(),
@@ -962,7 +1012,7 @@ fn run_spec(spec: &Spec, only: Option<Fmt>, selftest: bool, t: &mut Tally) {
         if selftest {
             corrupt(&mut reference);
         }
-        let after = observe_store(&s);
+        let after = observe_store(s);
         let mut mode = Mode { fmt, dim: spec.dim, info: &mut t.info, after_save: Some(&after) };
         let diffs = compare(&reference, &got, &mut mode);
         t.comparisons += reference.keys.values().map(|f| f.len() as u64 + 1).sum::<u64>() + reference.slabs.len() as u64;
@@ -970,7 +1020,7 @@ fn run_spec(spec: &Spec, only: Option<Fmt>, selftest: bool, t: &mut Tally) {
             let sig = if selftest { format!("{}:SELFTEST", d.sig) } else { d.sig };
             t.violation(sig, format!("{fmt:?}: {}  [store: dim {} puts {:?} deletes {:?} slabs {:?}]", d.msg, spec.dim, spec.puts, spec.deletes, spec.slabs), replay.clone());
         }
-        if obs_digest(&after) != obs_digest(&orig) {
+        if obs_digest(&after) != obs_digest(orig) {
             t.saves_that_changed_the_original += 1;
         }
         if t.sample.is_none() && spec.puts.len() >= 3 {
@@ -979,13 +1029,39 @@ fn run_spec(spec: &Spec, only: Option<Fmt>, selftest: bool, t: &mut Tally) {
     }
 }
 
-fn run_specs(specs: Vec<Spec>, selftest: bool) -> Tally {
+/// large stores: built once, one task per format on the shared store
+fn run_specs_per_format(specs: Vec<Spec>, level: Level, selftest: bool) -> Tally {
+    let mut total = Tally::default();
+    for spec in &specs {
+        let s = build(spec);
+        let orig = observe_store(&s);
+        // GraphTensor::snapshot reorganises the original on the first save; do it before sharing
+        let _ = s.snapshot_bytes();
+        let fmts = formats_for(&orig, level);
+        let t = fmts
+            .par_iter()
+            .map(|f| {
+                let mut t = Tally::default();
+                run_built(spec, &s, &orig, Some(*f), level, selftest, &mut t);
+                t
+            })
+            .reduce(Tally::default, |mut a, b| {
+                a.merge(b);
+                a
+            });
+        total.merge(t);
+    }
+    total.stores = specs.len() as u64;
+    total
+}
+
+fn run_specs(specs: Vec<Spec>, level: Level, selftest: bool) -> Tally {
     specs
-        .par_chunks(8)
+        .par_chunks(4)
         .map(|chunk| {
             let mut t = Tally::default();
             for s in chunk {
-                run_spec(s, None, selftest, &mut t);
+                run_spec(s, None, level, selftest, &mut t);
             }
             t
         })
@@ -995,13 +1071,16 @@ fn run_specs(specs: Vec<Spec>, selftest: bool) -> Tally {
         })
 }
 
-fn p1_specs() -> Vec<Spec> {
+fn p1_specs(thorough: bool) -> Vec<Spec> {
     let mut v = vec![];
     // empty store
     v.push(Spec { dim: 384, puts: vec![], deletes: vec![], slabs: vec![] });
-    for (kind, _) in generic_kinds() {
-        for key in KEY_CLASSES {
-            v.push(Spec::single(384, key, &kind));
+    let dims: &[usize] = if thorough { &[384, 4, 255, 256, 257] } else { &[384] };
+    for &dim in dims {
+        for (kind, _) in generic_kinds() {
+            for key in KEY_CLASSES {
+                v.push(Spec::single(dim, key, &kind));
+            }
         }
     }
     for dim in [4usize, 255, 256, 257, 384] {
@@ -1053,6 +1132,47 @@ fn p3_specs() -> Vec<Spec> {
     }
     v
 }
+/// P6: every operation sequence up to `depth` over a collision-forcing alphabet (two values per
+/// key, deletes, a slab-served embedding replaced by one that takes the other snapshot path)
+fn p6_specs(depth: usize) -> Vec<Spec> {
+    let alpha: Vec<(String, String)> = vec![
+        ("k".into(), "int-0".into()),
+        ("k".into(), "bytes-3".into()),
+        ("k".into(), DELETE.into()),
+        ("emb:e".into(), "emb/dense-geo+tag".into()),
+        ("emb:e".into(), "emb/zeros-2of3".into()),
+        ("emb:e".into(), "embfield-3".into()),
+        ("emb:e".into(), DELETE.into()),
+        ("emb:f".into(), "emb/dense-ramp".into()),
+        ("_cache:c".into(), "float-nan".into()),
+        ("_cache:c".into(), DELETE.into()),
+    ];
+    let mut out = vec![];
+    let mut frontier: Vec<Vec<(String, String)>> = vec![vec![]];
+    for _ in 0..depth {
+        let mut next = vec![];
+        for s in &frontier {
+            for a in &alpha {
+                // a delete of a key that is absent does nothing: skip (same store as without it)
+                if a.1 == DELETE {
+                    let present = s.iter().rev().find(|(k, _)| *k == a.0).is_some_and(|(_, kind)| kind != DELETE);
+                    if !present {
+                        continue;
+                    }
+                }
+                let mut t = s.clone();
+                t.push(a.clone());
+                next.push(t);
+            }
+        }
+        for dim in [4usize, 384] {
+            out.extend(next.iter().map(|p| Spec { dim, puts: p.clone(), deletes: vec![], slabs: vec![] }));
+        }
+        frontier = next;
+    }
+    out
+}
+
 /// structured large stores: `n` entries, every generic kind and key class round-robin, plus
 /// embeddings of the slab dimension every 50th entry
 fn p5_spec(dim: usize, n: usize) -> Spec {
@@ -1275,7 +1395,7 @@ struct EngTally {
     engine_diffs_explained_by_store_diff: u64,
 }
 
-fn run_engine_case(c: &EngCase, only: Option<Fmt>, selftest: bool, et: &mut EngTally) {
+fn run_engine_case(c: &EngCase, only: Option<Fmt>, level: Level, selftest: bool, et: &mut EngTally) {
     let rt = runtime();
     let store = TensorStore::new();
     let eng = engines_on(&store, &rt).expect("engines");
@@ -1290,7 +1410,7 @@ fn run_engine_case(c: &EngCase, only: Option<Fmt>, selftest: bool, et: &mut EngT
     et.t.distinct_stores.insert(obs_digest(&orig));
     let fmts: Vec<Fmt> = match only {
         Some(f) => vec![f],
-        None => formats_for(&orig).into_iter().filter(|f| !matches!(f, Fmt::RouterFile | Fmt::RouterBytes)).collect(),
+        None => formats_for(&orig, level).into_iter().filter(|f| !matches!(f, Fmt::RouterFile | Fmt::RouterBytes)).collect(),
     };
     for fmt in fmts {
         let fam = fmt.family();
@@ -1357,13 +1477,13 @@ fn run_engine_case(c: &EngCase, only: Option<Fmt>, selftest: bool, et: &mut EngT
     }
 }
 
-fn run_engine_part(selftest: bool) -> EngTally {
+fn run_engine_part(level: Level, selftest: bool) -> EngTally {
     (0..64u32)
         .collect::<Vec<_>>()
         .par_iter()
         .map(|&mask| {
             let mut et = EngTally::default();
-            run_engine_case(&EngCase { mask }, None, selftest, &mut et);
+            run_engine_case(&EngCase { mask }, None, level, selftest, &mut et);
             et
         })
         .reduce(EngTally::default, |mut a, b| {
@@ -1441,7 +1561,7 @@ fn crash_jobs(thorough: bool) -> Vec<CrashJob> {
     let mut v = vec![];
     // quick: every byte only for the small contents; thorough: every byte of every write
     let dl = |new: &str| if thorough || new == "empty" || new.starts_with("one") { 0 } else { 160 };
-    let contents: &[&str] = if thorough { &["empty", "one", "one'", "pool", "slabs"] } else { &["empty", "one", "pool", "slabs"] };
+    let contents: &[&str] = if thorough { &["empty", "one", "one'", "pool", "slabs"] } else { &["empty", "one", "pool"] };
     let v3 = [SaveFn::Zstd, SaveFn::Plain, SaveFn::RouterFile];
     let mut fn_pairs: Vec<(SaveFn, SaveFn)> = vec![(SaveFn::Quant, SaveFn::Quant)];
     for a in v3 {
@@ -1470,6 +1590,10 @@ fn crash_jobs(thorough: bool) -> Vec<CrashJob> {
         for f in [SaveFn::Zstd, SaveFn::Quant] {
             v.push(CrashJob { old: Some(("one".into(), f)), new: ("pool".into(), f), file: file.into(), dense_limit: dl("pool") });
         }
+    }
+    if !thorough {
+        v.push(CrashJob { old: Some(("pool".into(), SaveFn::Zstd)), new: ("slabs".into(), SaveFn::Zstd), file: "store.snap".into(), dense_limit: 160 });
+        v.push(CrashJob { old: Some(("slabs".into(), SaveFn::Plain)), new: ("one".into(), SaveFn::Plain), file: "store.snap".into(), dense_limit: 0 });
     }
     // larger instance: writes are cut at the first/last 24 bytes and every 61st byte in between
     v.push(CrashJob { old: Some(("pool".into(), SaveFn::Zstd)), new: ("medium".into(), SaveFn::Zstd), file: "store.snap".into(), dense_limit: 160 });
@@ -1636,7 +1760,7 @@ fn main() {
     env::clock_freeze(1_700_000_000);
     let mut rep = Report::new("C07", "model_checking");
     let thorough = rep.thorough();
-    rep.rule("round trip: P1 every value kind x every key class as single-entry stores, every embedding shape x slab dimension {4,255,256,257,384}; P2 all 64 subsets of a 6-entry pool, built directly and built as put-all-then-delete, at slab dimension 4 and 384; P3 all non-empty subsets of the key-less slabs {relations, graph, blobs} with and without keys; P4 all 64 subsets of 6 items created through RelationalEngine/GraphEngine/VectorEngine/BlobStore/EntityStore; P5 two fixed large stores; each x formats {save_snapshot/load_snapshot, save_v3_uncompressed, SlabRouter::save_to_file, SlabRouter::to_bytes/from_bytes, snapshot_bytes/restore_from_bytes into a fresh and into a non-empty store, save_snapshot_compressed with default / delta+rle / balanced / high-accuracy configuration}; reference = observation (scan+get of every key, every slab read, engine reads) of the original store before the save; distinct = canonical observation of the original store");
+    rep.rule("round trip: P1 every value kind x every key class as single-entry stores, every embedding shape x slab dimension {4,255,256,257,384}; P2 all 64 subsets of a 6-entry pool, built directly and built as put-all-then-delete, at slab dimension 4 and 384; P3 all non-empty subsets of the key-less slabs {relations, graph, blobs} with and without keys; P4 all 64 subsets of 6 items created through RelationalEngine/GraphEngine/VectorEngine/BlobStore/EntityStore; P5 two fixed large stores; P6 every put/overwrite/delete sequence up to length 2 (quick) / 4 (thorough) over a 10-operation collision-forcing alphabet at slab dimension 4 and 384; each x formats {save_snapshot/load_snapshot, save_v3_uncompressed, SlabRouter::save_to_file, SlabRouter::to_bytes/from_bytes, snapshot_bytes/restore_from_bytes into a fresh and into a non-empty store, save_snapshot_compressed with default / delta+rle / balanced / high-accuracy configuration}; reference = observation (scan+get of every key, every slab read, engine reads) of the original store before the save; distinct = canonical observation of the original store");
     rep.rule("crash: (previous content, previous save fn) x (new content, new save fn) x file name; every process-crash image of the logged save (every I/O op boundary and every byte cut of every write); load of the path must equal the previous or the new snapshot; non-trivial = image with a torn write");
     rep.assume("tolerance for slab-served `_embedding` vectors of length >= 256 and for tensor-train configurations of the quantising format: relative L2 error <= 1e-2 (the documented '<1% error'), judged only for finite vectors of tensor-train rank <= 3 (ramp, geometric, sinusoid, constant) and for the sparse path; other shapes are measured and listed, not judged");
     rep.assume("quantising format: scalars, pointers, key and field sets exact; vector payloads compared numerically after densification (Sparse may come back as Vector; -0.0 = 0.0, NaN = NaN), exactly when no tensor mode is configured; tensor-train configurations are only used when every vector handed to the coder has the configured length");
@@ -1650,7 +1774,7 @@ fn main() {
                 let spec: Spec = serde_json::from_value(r["spec"].clone()).expect("spec");
                 let fmt: Fmt = serde_json::from_value(r["format"].clone()).expect("format");
                 let mut t = Tally::default();
-                run_spec(&spec, Some(fmt), false, &mut t);
+                run_spec(&spec, Some(fmt), Level::Full, false, &mut t);
                 emit_tally(&mut rep, &t);
                 rep.sample(json!({"replayed": r}));
             }
@@ -1658,7 +1782,7 @@ fn main() {
                 let c: EngCase = serde_json::from_value(r["case"].clone()).expect("case");
                 let fmt: Fmt = serde_json::from_value(r["format"].clone()).expect("format");
                 let mut et = EngTally::default();
-                run_engine_case(&c, Some(fmt), false, &mut et);
+                run_engine_case(&c, Some(fmt), Level::Full, false, &mut et);
                 emit_tally(&mut rep, &et.t);
                 rep.sample(json!({"replayed": r}));
             }
@@ -1695,20 +1819,24 @@ fn main() {
         lap = now;
         (d * 10.0).round() / 10.0
     };
-    let t1 = run_specs(p1_specs(), selftest);
+    let full = if thorough { Level::Full } else { Level::Lean };
+    let t1 = run_specs(p1_specs(thorough), full, selftest);
     rep.part("P1_kinds_x_key_classes", json!({"wall_s": secs(), "stores": t1.stores, "distinct_stores": t1.distinct_stores.len(), "round_trips": t1.round_trips, "value_kinds": generic_kinds().len(), "key_classes": KEY_CLASSES.len(), "embedding_shapes_per_dimension": embedding_kinds(384).len(), "slab_dimensions": [4, 255, 256, 257, 384], "saves_that_changed_the_original_observation": t1.saves_that_changed_the_original, "violating_cases": t1.violation_total}));
-    let t2 = run_specs(p2_specs(), selftest);
+    let t2 = run_specs(p2_specs(), full, selftest);
     rep.part("P2_pool_subsets", json!({"wall_s": secs(), "stores": t2.stores, "distinct_stores": t2.distinct_stores.len(), "round_trips": t2.round_trips, "violating_cases": t2.violation_total}));
-    let t3 = run_specs(p3_specs(), selftest);
+    let t3 = run_specs(p3_specs(), Level::Full, selftest);
     rep.part("P3_keyless_slabs", json!({"wall_s": secs(), "stores": t3.stores, "distinct_stores": t3.distinct_stores.len(), "round_trips": t3.round_trips, "saves_that_changed_the_original_observation": t3.saves_that_changed_the_original, "violating_cases": t3.violation_total}));
-    let e4 = run_engine_part(selftest);
+    let depth6 = if thorough { 4 } else { 2 };
+    let t6 = run_specs(p6_specs(depth6), full, selftest);
+    rep.part("P6_op_sequences", json!({"wall_s": secs(), "max_length": depth6, "alphabet": 10, "stores": t6.stores, "distinct_stores": t6.distinct_stores.len(), "round_trips": t6.round_trips, "violating_cases": t6.violation_total}));
+    let e4 = run_engine_part(Level::Full, selftest);
     rep.part("P4_engines", json!({"wall_s": secs(), "stores": e4.t.stores, "distinct_stores": e4.t.distinct_stores.len(), "round_trips": e4.t.round_trips, "engine_reads_compared": e4.engine_reads_compared, "engine_read_differences_explained_by_a_reported_store_difference": e4.engine_diffs_explained_by_store_diff, "violating_cases": e4.t.violation_total}));
     let n5 = if thorough { 30_000 } else { 10_000 };
-    let t5 = run_specs(vec![p5_spec(384, n5), p5_spec(4, n5)], selftest);
+    let t5 = run_specs_per_format(vec![p5_spec(384, n5), p5_spec(4, n5)], full, selftest);
     rep.part("P5_large_stores", json!({"wall_s": secs(), "stores": t5.stores, "entries_each": n5, "round_trips": t5.round_trips, "comparisons": t5.comparisons, "violating_cases": t5.violation_total, "note": "fixed instances, not an enumeration"}));
 
     let mut all = Tally::default();
-    for t in [t1, t2, t3, e4.t.clone(), t5] {
+    for t in [t1, t2, t3, t6, e4.t.clone(), t5] {
         all.merge(t);
     }
     emit_tally(&mut rep, &all);
@@ -1724,6 +1852,7 @@ fn main() {
         x.0 += 1;
         x.1 = x.1.max(*e);
     }
+    rep.part("violation_breakdown", json!(all.by_sig.iter().map(|(k, (n, l))| (k.clone(), json!({"violating_cases": n, "examples": l}))).collect::<BTreeMap<_, _>>()));
     rep.part("vector_tolerance", json!({"judged_bit_identical_below_threshold": all.info.judged_bit_identical, "judged_within_tolerance_at_or_above_threshold": all.info.judged_tolerance, "max_relative_l2_error_among_judged": all.info.max_judged_rel_err, "measured_not_judged(count,max_rel_l2)": unj}));
 
     // ---- crash
@@ -1760,7 +1889,7 @@ fn main() {
     rep.add("evaluations", all.comparisons + e4.engine_reads_compared + c.loads + c.resaves);
     rep.add("distinct_nontrivial", all.distinct_stores.len() as u64 + c.torn_images);
     rep.set("explanation", json!("no separate model: both sides of every comparison are observations of real stores; the reference is the original store (round trip) or the cleanly written previous/new snapshot (crash)"));
-    if all.distinct_stores.len() < 300 || c.torn_images < 500 || c.loaded_as_old == 0 || c.loaded_as_new == 0 || all.info.judged_tolerance == 0 || all.info.judged_bit_identical == 0 {
+    if !selftest && (all.distinct_stores.len() < 300 || c.torn_images < 500 || c.loaded_as_old == 0 || c.loaded_as_new == 0 || all.info.judged_tolerance == 0 || all.info.judged_bit_identical == 0) {
         rep.machinery(format!("vacuous: distinct stores {}, torn images {}, loaded-as-old {}, loaded-as-new {}, judged {} / {}", all.distinct_stores.len(), c.torn_images, c.loaded_as_old, c.loaded_as_new, all.info.judged_tolerance, all.info.judged_bit_identical));
     }
     rep.finish();
